@@ -81,6 +81,29 @@ def row(deco, arg):
         return {"same": r is g, "attrs_added": sorted(set(after) - set(before)),
                 "rebound": ["contract lists"] if sizes() != before_sizes else [], "cond_calls": calls["cond"]}
 
+    if deco.endswith("Positional"):
+        # `enabled` given POSITIONALLY, at its documented place: require / ensure / invariant (condition, description, a_repr,
+        # enabled), snapshot (capture, name, enabled)
+        en = kw["enabled"]
+        base = deco[:-len("Positional")]
+        if base == "snapshot":
+            g = icontract.ensure(lambda result: True, enabled=True)(f)
+            before = dict(vars(g))
+            r = icontract.snapshot(lambda x: cond(), "s", en)(g)
+            target = g
+        elif base == "require":
+            before = dict(vars(f))
+            r = icontract.require(lambda x: cond(), None, None, en)(f)
+            target = f
+        else:
+            before = dict(vars(f))
+            r = icontract.ensure(lambda result: cond(), None, None, en)(f)
+            target = f
+        r(1)
+        after = dict(vars(target))
+        return {"same": r is target, "attrs_added": sorted(set(after) - set(before)),
+                "snap_list": len(getattr(target, "__postcondition_snapshots__", [])), "cond_calls": calls["cond"]}
+
     before = dict(vars(f))
     if deco == "require":
         d = icontract.require(lambda x: cond(), **kw)
@@ -300,9 +323,12 @@ def broken_before_call():
 def main():
     cases = json.load(open(sys.argv[1]))
     out = {"debug": __debug__, "SLOW": bool(icontract.SLOW), "optimize": sys.flags.optimize, "table": {}, "obs": []}
-    for deco in ("require", "ensure", "snapshot", "snapshotOverOld", "invariant", "requireOnChecker", "ensureOnChecker",
+    for deco in ("require", "ensure", "snapshot", "snapshotOverOld", "invariant", "requirePositional", "ensurePositional", "snapshotPositional",
+                 "requireOnChecker", "ensureOnChecker",
                  "requireOnStaticObj", "ensureOnStaticObj", "requireOnClassmObj", "ensureOnClassmObj"):
         for arg in ("dflt", "explicitTrue", "explicitFalse", "slow"):
+            if deco.endswith("Positional") and arg == "dflt":
+                continue
             try:
                 out["table"]["%s/%s" % (deco, arg)] = row(deco, arg)
             except BaseException as e:  # noqa: B902
